@@ -232,3 +232,160 @@ vk_harness!(c13_end_saves_continuation, {
     vk_cover!(pc0 > entry && kc == 4, "reach: direct statement with pending continuation");
     core::mem::forget(r);
 });
+
+// ---------------------------------------------------------------------------------------------------------------
+// helpers: programs built directly from opcodes (no lexing / parsing / code generation involved)
+
+fn load_ops(r: &mut Runtime, ops: Vec<Opcode>) {
+    let mut l = Link::default();
+    for op in ops {
+        l.push(op).unwrap();
+    }
+    r.program.append(l).unwrap();
+}
+fn first_error_code(ev: &Event) -> Option<u16> {
+    match ev {
+        Event::Errors(v) => v.iter().next().map(|e| ec::code_of(e)),
+        _ => None,
+    }
+}
+
+// The control skeleton of every execute()-level harness is CONCRETE (which state, which opcode, which position) and only
+// data is symbolic: a symbolic discriminant feeding `match op` / `match &self.state` makes CBMC walk every arm of the
+// dispatcher (measured: > 600 s). Finite discrete choices are covered by one generated harness per choice.
+
+fn break_is_reported_once(kc: u8, col: usize) {
+    let mut r = Runtime::default();
+    r.state = State::Interrupt;
+    r.cont = state_of(kc);
+    r.pc = vk::any_u16() as usize;
+    r.entry_address = vk::any_u16() as usize;
+    let pc0 = r.pc;
+    // `col` is concrete: a symbolic column would merge the two outcomes of the first slice into one symbolic VM state, and the
+    // second execute() would then walk every arm of the state machine
+    r.print_col = col;
+    let budget = vk::any_u16() as usize;
+    let ev = r.execute(budget);
+    if col > 0 {
+        // the forced line break comes first, the error on the next slice
+        vk_check!(matches!(&ev, Event::Print(s) if s.as_str() == "\n"), "C13: BREAK must first end the current output line");
+        vk_check!(r.print_col == 0, "C13: the forced line break resets the column");
+        let ev2 = r.execute(budget);
+        vk_check!(first_error_code(&ev2) == Some(0), "C13: interrupt must be reported as BREAK");
+        core::mem::forget(ev2);
+    } else {
+        vk_check!(first_error_code(&ev) == Some(0), "C13: interrupt must be reported as BREAK");
+    }
+    vk_check!(code_of_state(&r.state) == 1, "C03: after at most one interrupt the interpreter is stopped at the prompt");
+    vk_check!(code_of_state(&r.cont) == kc && r.pc == pc0, "C13: reporting BREAK must not disturb the continuation");
+    vk_cover!(true, "reach: break reported");
+    core::mem::forget(r);
+    core::mem::forget(ev);
+}
+
+//@ prop: C13 C03
+//@ tier: quick
+//@ unwind: 12
+//@ verbose: off
+//@ encodes: Runtime::execute (State::Interrupt arm, RuntimeError reporting); Link::line_number_for
+//@ bounds: saved continuation = Running; pc, entry_address < 2^16; print column 5 (mid-line); instruction budget any u16; empty program (no line table)
+vk_harness!(c13_break_reported_cont_running, {
+    break_is_reported_once(4, 5);
+});
+
+//@ prop: C13 C03
+//@ tier: quick
+//@ unwind: 12
+//@ verbose: off
+//@ encodes: Runtime::execute (State::Interrupt arm, RuntimeError reporting); Link::line_number_for
+//@ bounds: saved continuation = InputRunning; pc, entry_address < 2^16; print column 0; instruction budget any u16; empty program
+vk_harness!(c13_break_reported_cont_input, {
+    break_is_reported_once(7, 0);
+});
+
+//@ prop: C13 C03
+//@ tier: thorough
+//@ unwind: 12
+//@ verbose: off
+//@ encodes: Runtime::execute (State::Interrupt arm, RuntimeError reporting); Link::line_number_for
+//@ bounds: saved continuation = Stopped (interrupt at the prompt); pc, entry_address < 2^16; print column 0; budget any u16
+vk_harness!(c13_break_reported_cont_stopped, {
+    break_is_reported_once(1, 0);
+});
+
+fn stop_or_end_statement(is_stop: bool, entry: usize) {
+    let mut r = Runtime::default();
+    load_ops(&mut r, vec![if is_stop { Opcode::Stop } else { Opcode::End }, Opcode::End]);
+    r.state = State::Running;
+    r.pc = 0;
+    r.entry_address = entry; // 0: direct code, 1: last program instruction, 2: inside the program
+    // a GOSUB frame and a value under it
+    r.stack.push(Val::Integer(vk::any_i16())).unwrap();
+    r.stack.push(Val::Return(vk::any_u16() as usize)).unwrap();
+    let n = 2;
+    let ev = r.execute(5);
+    if is_stop {
+        // STOP = BREAK error raised by the statement; reported on the next slice
+        vk_check!(matches!(ev, Event::Running), "C13: STOP ends the slice");
+        vk_check!(code_of_state(&r.state) == 3, "C13: STOP is reported as an error (BREAK)");
+        if 1 < entry {
+            vk_check!(code_of_state(&r.cont) == 4 && r.cont_pc == 1, "C13: STOP inside the program must be continuable after the STOP");
+            vk_check!(r.stack.len() == n, "C13: STOP inside the program keeps the stack (loops, subroutines) for CONT");
+        } else {
+            vk_check!(code_of_state(&r.cont) == 1 && r.stack.len() == 0, "C13: STOP outside the program leaves nothing to continue");
+        }
+    } else {
+        vk_check!(code_of_state(&r.state) == 1, "C13: END stops the VM");
+        if 1 < entry {
+            vk_check!(code_of_state(&r.cont) == 4 && r.cont_pc == 1, "C13: END inside the program must be continuable");
+            vk_check!(r.stack.len() == n, "C13: END inside the program keeps the stack for CONT");
+        }
+        if 1 == entry {
+            vk_check!(code_of_state(&r.cont) == 1, "C13: END as the last program instruction leaves nothing to continue");
+        }
+    }
+    vk_cover!(true, "reach: stop/end statement");
+    core::mem::forget(r);
+    core::mem::forget(ev);
+}
+
+//@ prop: C13
+//@ tier: quick
+//@ unwind: 12
+//@ verbose: off
+//@ encodes: Runtime::execute; Runtime::execute_loop (Opcode::Stop dispatch, error bookkeeping)
+//@ bounds: program [STOP, END], STOP inside the stored program; stack = [Integer(any), Return(any)]
+vk_harness!(c13_stop_inside_program, {
+    stop_or_end_statement(true, 2);
+});
+
+//@ prop: C13
+//@ tier: quick
+//@ unwind: 12
+//@ verbose: off
+//@ encodes: Runtime::execute; Runtime::execute_loop (Opcode::Stop dispatch, error bookkeeping)
+//@ bounds: program [STOP, END] as a direct statement; stack = [Integer(any), Return(any)]
+vk_harness!(c13_stop_direct, {
+    stop_or_end_statement(true, 0);
+});
+
+//@ prop: C13
+//@ tier: quick
+//@ unwind: 12
+//@ verbose: off
+//@ encodes: Runtime::execute; Runtime::execute_loop (Opcode::End dispatch); Runtime::r#end
+//@ bounds: program [END, END], END inside the stored program; stack = [Integer(any), Return(any)]
+vk_harness!(c13_end_inside_program, {
+    stop_or_end_statement(false, 2);
+});
+
+//@ prop: C13
+//@ tier: thorough
+//@ unwind: 12
+//@ verbose: off
+//@ encodes: Runtime::execute; Runtime::execute_loop (Opcode::End dispatch); Runtime::r#end
+//@ bounds: program [END, END], END as the last program instruction; stack = [Integer(any), Return(any)]
+vk_harness!(c13_end_last_instruction, {
+    stop_or_end_statement(false, 1);
+});
+
